@@ -51,17 +51,25 @@ pub struct Prec {
     pub max_instr: usize,
 }
 
-fn render_input(instrs: &[MInstr]) -> String {
-    let mut s = String::new();
-    for cp in ["T", "U"] {
-        s.push_str(&format!("#[map({cp})]\n#[into_existing({cp})]\n#[try_map({cp}, Er)]\n#[try_into_existing({cp}, Er)]\n"));
-    }
-    s.push_str("struct S {\n");
+pub fn to_item(instrs: &[MInstr]) -> crate::item::Item {
+    use crate::item::{Field, Instr, Item, Shape};
+    let mut a = Field::named("a", "i32");
     for i in instrs {
-        s.push_str(&format!("    {}\n", i.render()));
+        let body = if i.ghost { format!("{{ {} }}", 1000 + i.marker) } else { format!("r{}, ~ + {}", i.marker, 1000 + i.marker) };
+        a.attrs.push(Instr::new(&i.name, i.ded.as_deref(), &body));
     }
-    s.push_str("    a: i32,\n    b: i32,\n}\n");
-    s
+    let mut it = Item::new_struct("S", Shape::Named, vec![a, Field::named("b", "i32")]);
+    for cp in ["T", "U"] {
+        it.attrs.push(Instr::new("map", None, cp));
+        it.attrs.push(Instr::new("into_existing", None, cp));
+        it.attrs.push(Instr::new("try_map", None, &format!("{}, Er", cp)));
+        it.attrs.push(Instr::new("try_into_existing", None, &format!("{}, Er", cp)));
+    }
+    it
+}
+
+fn render_input(instrs: &[MInstr]) -> String {
+    to_item(instrs).render()
 }
 
 impl Space for Prec {
